@@ -236,7 +236,7 @@ ADDENDA = {
     "C19": " Also decided (R19-pushsrc): every move pushed on a board outside the board package derives from the position's own generator; fen.NewBoard fails it and is listed as known finding F26. Also decided (R19-meta, defect F22): some decision in the decoding family depends on both the castling rights and the placement, on both the en-passant square and the placement, and on both the en-passant square and the side to move, and rejects or repairs. Also decided (R19-homes, defects F22/F34): each castling right is checked against its own king and rook home squares, and the validating function accepts only placements with exactly one king per side. R19-index also covers the command loops of both drivers (defect F36): a token picked by a constant index or a constant-bounded sub-list of the split input line is dominated by a length test.",
     "C13": " Also decided: the child window is the exact pre-image of the parent's window under Negate(IncrementMateDistance(.)) on every abstract score region (R13-frame; defect F19), and the negamax discipline of C03 including 'the move loop is left early only on alpha >= beta'.",
     "C15": " The time-control clause also requires the divisor of the time split to have a finite upper bound on every path (no int64 wrap-around to zero or below for a huge movestogo; defect F21). Anchors are role-based (the function started by the launcher, the handle's fields by type and use); the stop tests are recognised in the controller or in a bool helper it consults. Also decided: at every call of the time-control enforcement the colour handed over is Board.Turn() itself (the limits come from the mover's clock).",
-    "C16": " A timer whose callback halts the engine is kept and stopped (R16-timer, defect F27); a hash size from the command line reaches the engine only range-checked (R16-options, defect F28); the completion's compare-and-swap expects a per-search id handed in by the caller and info lines are printed only for the search they belong to (R16-stale restated; the former known finding F12 is repaired), and searches are completed by the command loop itself, never by a goroutine it started (defect F32); the output channel is closed only after the forwarders were joined (R16-close-owner decides the join; the former known finding F11 is repaired); no command other than quit, end of input or close leaves the command loop (the former known finding F13 is repaired) - C16 has no listed findings left. The rules read the active flag through a representation-agnostic model (clear / arm / win / load). The noise generator's mutex must be shared by every copy of the generator (not a by-value field of a copied receiver). Also decided (R16-supersede): a command that halts the engine's search on the way to something else clears the active flag first; goroutines started by the command loop share only variables that are no longer assigned. R16-locks decides ownership generally: a plain (non-channel, non-sync) driver field that the command loop writes is touched by no asynchronously started function or its helpers.",
+    "C16": " A timer whose callback halts the engine is kept and stopped (R16-timer, defect F27); a hash size from the command line reaches the engine only range-checked (R16-options, defect F28); the completion's compare-and-swap expects a per-search id handed in by the caller and info lines are printed only for the search they belong to (R16-stale restated; the former known finding F12 is repaired), and searches are completed by the command loop itself, never by a goroutine it started (defect F32); the output channel is closed only after the forwarders were joined (R16-close-owner decides the join; the former known finding F11 is repaired); no command other than quit, end of input or close leaves the command loop (the former known finding F13 is repaired) - C16 has no listed findings left. The rules read the active flag through a representation-agnostic model (clear / arm / win / load). The noise generator's mutex must be shared by every copy of the generator (not a by-value field of a copied receiver). Also decided (R16-supersede): a command that halts the engine's search on the way to something else clears the active flag first; goroutines started by the command loop share only variables that are no longer assigned. R16-locks decides ownership generally: a plain (non-channel, non-sync) driver field that the command loop writes is touched by no asynchronously started function or its helpers. Also decided (R16-flush, defect F38): in every function that creates a driver the output channel is consumed by a call the function waits for, so nothing the driver emitted is lost when the process exits.",
     "C18": " No evaluator state is excepted any more (defect F29): a store through a parameter is accepted only if every caller in search code passes an object it has just created. Also decided: Engine.Reset replaces board, table and noise generator on every path (a reset engine does not continue a consumed random stream); the stateful SARGON evaluator is re-initialised on every path of its Reset without reading old state; map iteration in search code is order-insensitive by shape. Also decided (R18-handback, rules of C03/C08): a search hands its board back as received - balanced push/pop, PopMove the exact inverse of PushMove (castled flags and result included), the no-legal-move verdict taken back - so the iterations of one analysis, which share a fork, start from the same state.",
     "C17": " Also decided (R17-range, defect F30): ply and depth are narrowed into the entry only under range tests, and the replacement value is computed in a type wider than its operand fields.",
     "C20": " Also decided: every narrowing of the plausible-move list after the initial filter is guarded by the castle-ranked flag; the branch-limit cut is made before Selection (helper or inline); every key of a book map keeps the leading FEN fields the legality of the filed reply depends on (R20-key: placement and side for every book, castling rights and e.p. target too for books built from played lines); a counted loop over squares in an evaluator visits a mirror-symmetric set of squares (R20-squares, a necessary condition of colour-blindness, which as a whole stays not decided).",
